@@ -13,29 +13,33 @@ VARIABLE st
 MB_quick == <<1, 2, 3, 2>>
 Vals_quick == <<{-1, 1, 2}, {-1, 1, 2}, {-1, 1, 2}, {-1, 1, 2}>>
 MB_d45 == <<0, 0, 0, 0, 2, 2>>
-Vals_d45 == <<{1}, {1}, {1}, {1}, {-1, 1, 2}, {-1, 1}>>
+Vals_d45 == <<{1}, {1}, {1}, {1}, {-1, 1, 2}, {2}>>
 MB_full3 == <<1, 2, 4, 8>>
 Vals_full3 == <<{-1, 1, 2}, {-1, 1, 2}, {-1, 1, 2}, {-1, 1}>>
+MB_t5 == <<0, 0, 0, 0, 0, 1>>
+Vals_t5 == <<{1}, {1}, {1}, {1}, {1}, {2}>>
 MB_d6 == <<0, 0, 0, 0, 0, 0, 2>>
-Vals_d6 == <<{1}, {1}, {1}, {1}, {1}, {1}, {-1, 1}>>
+Vals_d6 == <<{1}, {1}, {1}, {1}, {1}, {1}, {2}>>
 
 SigsOf(d) == IF Sigs = "all" THEN [1 .. d -> {-1, 0, 1}]
-             ELSE {s \in [1 .. d -> {-1, 0, 1}] : \A i \in 1 .. d - 1 : s[i] >= s[i + 1]}     \* "sorted": one ordering per (p, q, r)
-Operands(d) == UNION {[S -> Vals[d + 1]] : S \in {T \in SUBSET Blades(d) : Cardinality(T) <= MaxBlades[d + 1]}}
+             ELSE IF Sigs = "sorted" THEN {s \in [1 .. d -> {-1, 0, 1}] : \A i \in 1 .. d - 1 : s[i] >= s[i + 1]}     \* one ordering per (p, q, r)
+             ELSE {[i \in 1 .. d |-> 1], [i \in 1 .. d |-> -1], [i \in 1 .. d |-> IF i = 1 THEN 0 ELSE 1],
+                   [i \in 1 .. d |-> IF i % 2 = 0 THEN -1 ELSE 1], [i \in 1 .. d |-> IF i <= 2 THEN 0 ELSE IF i = d THEN -1 ELSE 1]}   \* "few"
+KS(k, S) == IF k = 0 THEN {{}} ELSE IF k = 1 THEN {{a} : a \in S} ELSE IF k = 2 THEN {{p[1], p[2]} : p \in {q \in S \X S : q[1] < q[2]}} ELSE kSubset(k, S)   \* (kSubset refuses 64 elements)
+SmallSubsets(d) == UNION {KS(k, Blades(d)) : k \in 0 .. MaxBlades[d + 1]}       \* (never SUBSET Blades(d): 2^32 sets for d = 5)
 Dense(d, f) == [B \in Blades(d) |-> IF B \in DOMAIN f THEN f[B] ELSE 0]
 
 Init == st = [phase |-> "root"]
-Next == \/ st.phase = "root" /\ \E d \in 0 .. MaxD : \E s \in SigsOf(d) : \E S \in {T \in SUBSET Blades(d) : Cardinality(T) <= MaxBlades[d + 1]} :
+Next == \/ st.phase = "root" /\ \E d \in 0 .. MaxD : \E s \in SigsOf(d) : \E S \in SmallSubsets(d) :
               st' = [phase |-> "ticket", sig |-> s, keys |-> S]
         \/ st.phase = "ticket" /\ \E f \in [st.keys -> Vals[Len(st.sig) + 1]] : st' = [phase |-> "case", sig |-> st.sig, x |-> f]
 Spec == Init /\ [][Next]_st
 
-Cfg(sig) == Compile(DefaultCfg(Len(sig), sig))
+Cfg(sig) == TLCEval(Compile(TLCEval(DefaultCfg(Len(sig), sig))))
 X == Dense(Len(st.sig), st.x)
 InvHitzer == st.phase = "case" => HitzerOK(Cfg(st.sig), X)
 InvShirokov == st.phase = "case" => ShirokovOK(Cfg(st.sig), X)
 InvAgree == st.phase = "case" => GeneratorsAgree(Cfg(st.sig), X)
 \* den = 0 with a non-zero numerator exhibits a zero divisor: no inverse exists
-InvZeroDen == st.phase = "case" =>
-   LET c == Cfg(st.sig) IN (InvDen(c, X) = 0 /\ ~MI!IsZeroMV(InvNum(c, X))) => MI!IsZeroMV(G(c, X, InvNum(c, X)))
+InvZeroDen == st.phase = "case" => ZeroDenMeansZeroDivisor(Cfg(st.sig), X)
 ==============================================================================
